@@ -719,6 +719,43 @@ pub fn many_normal_groups(rng: &mut Rng, groups: u32) -> Vec<u8> {
     b
 }
 
+/// An INVALID 1x1 stream: code number `which` (0 = green .. 4 = distance) of its only group is a normal code whose
+/// explicit max_symbol is 2 + `field` in the widest (16-bit) field - above every alphabet -, written so that a reader
+/// that lets the sum wrap to `2 + field - 65536` finds a valid stream: a code-length code with the single symbol 1,
+/// hence zero-bit tokens, and everything after it valid.
+pub fn hidden_max_symbol(which: usize, field: u32) -> Vec<u8> {
+    let mut bw = BitWriter::new();
+    bw.bits(0x2f, 8);
+    bw.bits(0, 14);
+    bw.bits(0, 14);
+    bw.bit(false);
+    bw.bits(0, 3);
+    bw.bit(false); // no transform
+    bw.bit(false); // no colour cache
+    bw.bit(false); // no meta prefix image
+    for k in 0..5 {
+        if k == which {
+            bw.bit(false); // normal code
+            bw.bits(0, 4); // four code-length-code lengths, in CODE_ORDER: 17, 18, 0, 1
+            bw.bits(0, 3);
+            bw.bits(0, 3);
+            bw.bits(0, 3);
+            bw.bits(1, 3); // only symbol 1 is used: one-symbol code, zero bits per token
+            bw.bit(true); // max_symbol follows
+            bw.bits(7, 3); // length_nbits = 2 + 2*7 = 16
+            bw.bits(field, 16);
+        } else {
+            bw.bit(true);
+            bw.bit(false);
+            bw.bit(false);
+            bw.bit(false);
+        }
+    }
+    let mut b = bw.bytes;
+    b.extend_from_slice(&[0; 4]);
+    b
+}
+
 /// An INVALID stream (a second colour-indexing transform) built so that a reader which sizes the preceding
 /// predictor / colour-transform sub-image too LARGE never sees the violation: the sub-image's pixels cost one bit each
 /// (two-symbol green code, everything else zero-bit), the violation sits right after the `r` pixels a correct reader
